@@ -147,6 +147,10 @@ def sink_field_writes(prog, adt, fields=None, crates=None):
                     for e in pl["proj"]:
                         if e["k"] == "field" and e.get("of") == adt and (fields is None or e.get("name") in fields):
                             out.setdefault(f["path"], "%s %s.%s" % (how, adt.rsplit("::", 1)[1], e.get("name")))
+                    # `*r = value` through a reference (or into a container element): replaces every field at once
+                    if how == "assign" and fields is None and pl["proj"] and any(e["k"] == "deref" for e in pl["proj"]) and pl["proj"][-1]["k"] != "field" \
+                            and re.match(re.escape(adt) + r"(<|$)", str(pl.get("ty", ""))):
+                        out.setdefault(f["path"], "overwrites a whole %s through a reference" % adt.rsplit("::", 1)[1])
     return out
 
 
@@ -208,9 +212,15 @@ def is_fn(f, self_adt=None, item=None, trait=None, name=None):
     return True
 
 
+class _T(str):
+    """a type string whose `in` test matches whole path segments (Page does not match PageId, Frame does not match FrameError)"""
+    def __contains__(self, adt):
+        return re.search(re.escape(adt) + r"(?![A-Za-z0-9_])", str(self)) is not None
+
+
 def ty_s(f):
     ins = " ; ".join(t["s"] for t in f.get("inputs", []))
-    return ins, f.get("output", {}).get("s", "")
+    return _T(ins), _T(f.get("output", {}).get("s", ""))
 
 
 def mut_param_types(f):
@@ -494,12 +504,71 @@ def role_encoder(chk, prog, rule):
 
 
 def role_config_table(chk, prog, rule):
-    """who maps a SignType to configuration bytes"""
+    """who maps a SignType to configuration bytes or to dimensions"""
     def pred(f):
         i, o = ty_s(f)
-        return STYPE in i and bool(re.search(r"\bu8\b", o)) and "Result" not in o
-    auth = [lambda f: is_fn(f, STYPE, "to_bytes", trait=False)]
-    return closed_sig(chk, prog, rule, "config-table", ALL, pred, auth, 1, "SignType::to_bytes")
+        return STYPE in i and bool(re.search(r"\bu8\b|\bu32\b|\busize\b|\bu16\b|\bu64\b", o)) and "Result" not in o and STYPE not in o
+    auth = [lambda f: is_fn(f, STYPE, "to_bytes", trait=False), lambda f: is_fn(f, STYPE, "dimensions", trait=False),
+            lambda f: (f.get("impl") or {}).get("trait") in ("core::hash::Hash",)]
+    return closed_sig(chk, prog, rule, "config-table", ALL, pred, auth, 2, "SignType::to_bytes and SignType::dimensions")
+
+
+INT_RE = re.compile(r"^[ui](8|16|32|64|128|size)$")
+
+
+def role_pixel_api(chk, prog, rule):
+    """who changes a Page, and who reads a pixel by coordinates"""
+    g = Graph.of(prog)
+    ops = {n: [f for f in prog.fns.values() if is_fn(f, PAGE, n, trait=False)] for n in ("get_pixel", "set_pixel", "set_all_pixels")}
+    w = dict(sink_field_writes(prog, PAGE))
+    for n in ("set_pixel", "set_all_pixels"):
+        for f in ops[n]:
+            w.setdefault(f["path"], "is Page::%s" % n)
+    r = {f["path"]: "is Page::get_pixel" for f in ops["get_pixel"]}
+    reach_w, reach_r = g.reach_back(w), g.reach_back(r)
+    names = ("new", "from_bytes", "get_pixel", "set_pixel", "set_all_pixels")
+    apaths = {f["path"] for f in prog.fns.values() if is_fn(f, PAGE, trait=False) and f.get("item") in names}
+    n_ok = 0
+    for f in sorted(entries(prog, CORE), key=lambda f: f["name"]):
+        if derived(f) or (f.get("impl") or {}).get("trait", "").startswith("core::fmt::"):
+            continue
+        if f["path"] in reach_w:
+            reach, kind = reach_w, "changes a page"
+        elif f["path"] in reach_r and any(INT_RE.match(t["s"]) for t in f.get("inputs", [])):
+            reach, kind = reach_r, "reads a pixel by coordinates"
+        else:
+            continue
+        ok = f["path"] in apaths
+        why = ""
+        if not ok and f["path"] not in w:
+            fw, why = forwarder(prog, f, apaths)
+            if fw:
+                chk.ob(rule, "pixel-api: `%s` only forwards its arguments to one analysed entry point and returns its result" % f["name"], True, where=loc(f["span"]))
+                continue
+        chk.ob(rule, "pixel-api: `%s` (%s) is one of Page::new / from_bytes / get_pixel / set_pixel / set_all_pixels, or a transparent forwarder to one" % (f["name"], kind), ok,
+               key="surface:pixel-api:%s" % f["name"], where=loc(f["span"]),
+               detail="reaches a site that %s via %s%s" % (reach[f["path"]][1], " -> ".join(g.path_of(reach, f["path"])), "; not a forwarder: " + why if why else ""))
+        n_ok += 1 if ok else 0
+    chk.floor(rule, "pixel-api: analysed pixel operations found", n_ok, 3)
+    return n_ok
+
+
+def role_page_ctor(chk, prog, rule):
+    """who hands out a Page it did not receive"""
+    def pred(f):
+        i, o = ty_s(f)
+        return PAGE in o and PAGE not in i
+    auth = [lambda f: is_fn(f, PAGE, "new", trait=False), lambda f: is_fn(f, PAGE, "from_bytes", trait=False)]
+    return closed_sig(chk, prog, rule, "page-ctor", CORE, pred, auth, 2, "Page::new and Page::from_bytes")
+
+
+def role_config_decoder(chk, prog, rule):
+    """who turns bytes into a SignType"""
+    def pred(f):
+        i, o = ty_s(f)
+        return STYPE in o and STYPE not in i and bool(re.search(r"\bu8\b", i))
+    auth = [lambda f: is_fn(f, STYPE, "from_bytes", trait=False)]
+    return closed_sig(chk, prog, rule, "config-decoder", ALL, pred, auth, 1, "SignType::from_bytes")
 
 
 def role_data(chk, prog, rule):
@@ -520,6 +589,7 @@ ROLES = {
     "sign-state": role_vsign, "bus-impl": role_bus_impls, "controller-op": role_controller, "serial-io": role_serial, "bridge-io": role_odk,
     "port-setup": role_port_setup, "decoder": role_decoder, "stream-io": role_stream, "message-codec": role_msg_codec, "encoder": role_encoder,
     "config-table": role_config_table, "data-state": role_data, "page-state": role_page,
+    "pixel-api": role_pixel_api, "page-ctor": role_page_ctor, "config-decoder": role_config_decoder,
 }
 
 # which roles each property's behaviour can be reached through
@@ -529,20 +599,20 @@ ROLEMAP = {
     "C03": ("decoder", "encoder", "data-state"),
     "C04": ("message-codec",),
     "C05": ("message-codec", "encoder", "decoder"),
-    "C06": (),
-    "C07": ("page-state",),
-    "C08": ("controller-op", "sign-state", "page-state"),
-    "C09": ("controller-op", "page-state", "config-table", "data-state"),
+    "C06": ("pixel-api",),
+    "C07": ("page-state", "pixel-api", "page-ctor"),
+    "C08": ("controller-op", "sign-state", "page-state", "page-ctor"),
+    "C09": ("controller-op", "page-state", "page-ctor", "config-table", "data-state"),
     "C10": ("controller-op", "page-state"),
     "C11": ("controller-op",),
     "C12": ("sign-state",),
-    "C13": ("sign-state", "page-state"),
+    "C13": ("sign-state", "page-state", "page-ctor"),
     "C14": ("sign-state",),
     "C15": ("stream-io", "decoder"),
     "C16": ("serial-io",),
     "C17": ("serial-io", "bridge-io", "controller-op", "sign-state"),
     "C18": ("serial-io",),
-    "C19": ("config-table", "sign-state"),
+    "C19": ("config-table", "config-decoder", "sign-state"),
     "C20": ("port-setup", "serial-io", "bridge-io"),
 }
 
